@@ -24,6 +24,7 @@ void runLoadDump(const Opts& o, long idx, CaseLog& log) {
     char b[700]; snprintf(b, sizeof b, "%s/snap_%ld.json", o.out.c_str(), idx);
     writeFileBytes(b, toJson(s, true));
     log.line("RES %ld ok reads=%lu shape=%s", idx, g_hook.reads, shapeSig(s).c_str());
+    if (o.geti("print", 0)) { Outcome po; log.pre("print"); VF_TRY(po, c->print()); log.ev("print", "", po); }
     if (o.geti("resave", 0)) {
         snprintf(b, sizeof b, "%s/resave_%ld.c3d", o.out.c_str(), idx);
         Outcome so; log.pre("write"); VF_TRY(so, c->write(b)); log.ev("save", "", so);
